@@ -12,6 +12,7 @@ import (
 	m "github.com/Eyevinn/dash-mpd/mpd"
 	"github.com/Eyevinn/mp4ff/mp4"
 	"net"
+	"strings"
 	"time"
 )
 
@@ -1823,6 +1824,22 @@ func encWanted(codec string) bool { return strHasPrefix(codec, "avc") || strHasP
 
 // findSegStartTime: start time (loop-extended) of segment number nr in rep; numbers below the
 // start number have no segment.
+// strContains: strings.Contains (uninterpreted in proofs).
+func strContains(s, sub string) bool { return strings.Contains(s, sub) }
+
+//@ uninterpreted strContains
+
+//@ extern func strings.Contains(s, substr) (r)
+//@   ensures r == strContains(s, substr)
+
+// repInReps: a status-code pattern applies to a representation when its filter list is empty or
+// one of the filters occurs in the representation id.
+//@ func repInReps
+//@   ensures  emptyFilterMeansAll: len(reps) == 0 ==> result
+//@   ensures  someFilterOccursInId: len(reps) > 0 ==> (result <==> exists k in [0, len(reps)) :: strContains(segmentPart, reps[k]))
+//@   loop 1 invariant 0 <= rangeidx && rangeidx <= len(reps) && len(reps) > 0
+//@   loop 1 invariant forall k in [0, rangeidx) :: !strContains(segmentPart, reps[k])
+
 //@ func findSegStartTime
 //@   requires a != nil && cfg != nil && rep != nil && len(rep.Segments) > 0
 //@   requires nrGEstart: nr >= specStartNr(cfg)
@@ -1851,6 +1868,7 @@ func encWanted(codec string) bool { return strHasPrefix(codec, "avc") || strHasP
 //@ func calcStatusCode
 //@   wiring
 //@   loop 1 invariant true
+//@   callsite repInReps requires filterOnRepresentationId: arg0 == rep.ID && arg_reps == ss.Reps
 //@   callsite findLastSegNr requires atCycleStart: arg_nowMS == (cfg.StartTimeS + wrapStartS)*1000 && arg_rep == segMeta.rep && nrWraps > 0
 //@   callsite findSegStartTime requires firstOfCycle: arg_nr == firstNr && arg_rep == segMeta.rep && arg_nr >= specStartNr(cfg)
 //@   exit 4 requires indexWithinCycle: idx == ss.Rsq && ret0 == ss.Code && idx == int(segMeta.newNr) - firstNr
